@@ -143,6 +143,15 @@ ShapesW(f, full) ==
                        \cup {TH(IF f = "docx" THEN "cellsdt" ELSE "cellsec"), H(2, "outline")}
           ELSE {Br("WO", IF f = "docx" THEN "sdt" ELSE "section"), Br("M", IF f = "docx" THEN "bookmark" ELSE "softbreak")})
 
+\* ---- family N: nested inline containers ---------------------------------------
+\* a run inside every nesting of inline containers, between two plain runs, in a body paragraph,
+\* a heading, a list item; and in the cells of a table
+KidsN(w) == <<R("r", <<"t">>), R(w, <<"t">>), R("r", <<"t">>)>>
+DocsN(f) == UNION {{D(f, <<P(KidsN(w))>>, 0, 0),
+                    D(f, <<[H(2, "outline") EXCEPT !.ch = KidsN(w)], Plain>>, 0, 0),
+                    D(f, <<[LI(0, "bullet") EXCEPT !.ch = KidsN(w)]>>, 0, 0)} : w \in NestedWrappers(f)}
+            \cup {D(f, <<[T(1, 2, <<>>, <<>>, <<>>) EXCEPT !.how = "cellnest"], Plain>>, 0, 0)}
+
 \* ---- family L: list trees ---------------------------------------------------
 LIh(l, num, how) == [k |-> "LI", ch |-> <<R("r", <<"t">>)>>, lvl |-> l, how |-> how, num |-> num, sty |-> 0, tb |-> NoTbl]
 ShapesL(f) == {LIh(l, "bullet", "") : l \in 0..3}
@@ -176,6 +185,7 @@ FamInit(fm, mb) ==
                            /\ IsDoc(D(f, b, 0, 0))
                            /\ \E i \in 1..n : b[i].k \in Brackets      \* (wrapper-free bodies are family A's)
                            /\ doc = D(f, b, 0, 0)
+         [] fm = "N" -> \E f \in Fmts : doc \in DocsN(f)
          [] fm = "S" -> \E f \in Fmts : \E n \in 1..mb : \E dcs \in SeqN(SheetDecls(f), n) :
                            \E last \in {-2, -1, 0} \cup (1..n) :
                              /\ SheetOK(f, ChainSheet(f, dcs, last))
@@ -188,7 +198,7 @@ MCInit ==
     /\ pos = 0 /\ out = <<>>
     /\ IF Fam = "Q"
        THEN \/ FamInit("A", 3) \/ FamInit("B", 0) \/ FamInit("C", 0) \/ FamInit("D", 0)
-            \/ FamInit("S", 4) \/ FamInit("L", 3) \/ FamInit("O", 3) \/ FamInit("W", 5)
+            \/ FamInit("S", 4) \/ FamInit("L", 3) \/ FamInit("O", 3) \/ FamInit("W", 5) \/ FamInit("N", 0)
        ELSE FamInit(Fam, MaxBlocks)
 
 \* ---- case emission ---------------------------------------------------------
